@@ -315,7 +315,7 @@ pub fn run(ctx: &Ctx) -> Outcome {
     let mut out = Outcome::new("exploration");
     let (atoms, callees, depth): (Vec<RType>, Vec<Vec<String>>, usize) = match ctx.tier {
         Tier::Quick => (
-            vec![RType::Unit, RType::Path(path("a")), RType::Path(path("B")), RType::Path(path("c9")), RType::Path(path("a::B")), RType::Path(path("B::a")), RType::Path(path("B::c9::a")), RType::Path(path("c9::c9::c9"))],
+            vec![RType::Unit, RType::Path(path("a")), RType::Path(path("B")), RType::Path(path("c9")), RType::Path(path("a::B")), RType::Path(path("u8::_x")), RType::Path(path("B::c9::a")), RType::Path(path("c9::c9::c9::c9"))],
             vec![path("a"), path("B::c9")],
             2,
         ),
